@@ -187,7 +187,8 @@ def check_generate(ctx, fb, cfg):
     it = fb.need("rln::protocol::inputs_for_witness_calculation")
     ctx.touch(it)
     eng = Engine(fb, inline=lambda i: False)
-    oks = [eng.value_of(p.store, p.ret) for p in eng.run(it) if p.kind == "return" and known_ok(eng.value_of(p.store, p.ret)) is not False]
+    run = eng.run(it)
+    oks = [eng.value_of(p.store, p.ret) for p in run if p.kind == "return" and known_ok(eng.value_of(p.store, p.ret)) is not False]
     why = None
     if len(oks) != 1 or oks[0][4][0][0] != "array":
         why = "expected one success path returning an array, found %d" % len(oks)
@@ -202,22 +203,27 @@ def check_generate(ctx, fb, cfg):
                 why = "input name %s, specification %s (order as declared)" % (sh(el[1][0], 40), name)
                 break
             v = el[1][1]
-            fields = [s for s in subterms(v) if s[0] == "field" and s[1] == P(1)]
+            sm = seq_map(fb, v, run)
+            fields = [s for s in subterms(v if sm is None else ("t", v, sm[0])) if s[0] == "field" and s[1] == P(1)]
             if [s[2][1] for s in fields] != [field]:
                 why = "input `%s` is built from witness field(s) %s, specification %s" % (name, [s[2][1] for s in fields], field)
                 break
             if n == 1 and not any(s[0] == "array" and s[1] == (F(P(1), field),) for s in subterms(v)):
                 why = "input `%s` is %s, specification vec![witness.%s]" % (name, sh(v, 120), field)
     ctx.check(why is None, "R01-4", "inputs_for_witness_calculation[%s]" % cfg, "seven (name, vector) pairs, each from the same-named witness field", why or "", loc(it))
-    cl = fb.closures_of(it.path)
     okc = False
-    if cl:
-        e2 = Engine(fb, inline=lambda i: False)
-        for p in e2.run(cl[0]):
-            for c in p.calls(r"Vec::<T, A>::push$"):
-                x = c[2][1]
-                if x[0] == "call" and re.search(r"From<u8>>::from$", x[1]) and x[2] == (P(2),):
-                    okc = True
+    for p in run:
+        if p.kind != "return":
+            continue
+        r = eng.value_of(p.store, p.ret)
+        if known_ok(r) is False or r[0] != "adt" or r[4][0][0] != "array":
+            continue
+        for el in r[4][0][1]:
+            if el[0] == "tuple" and el[1][0] == ("str", "identityPathIndex"):
+                sm = seq_map(fb, el[1][1], run)
+                # the element-wise image of witness.identity_path_index under Fr::from(u8), in any spelling
+                okc = sm is not None and sm[0] == F(P(1), "identity_path_index") and sm[1][0] == "call" \
+                    and re.search(r"From(<u8>)?>?::from$", sm[1][1]) is not None and sm[1][2] == (ELEM,)
     ctx.check(okc, "R01-4", "direction bits as field elements[%s]" % cfg, "identityPathIndex[i] = Fr::from(bit_i)", "direction values are not converted one-to-one with Fr::from(u8)", loc(it))
     g = fb.need("rln::protocol::generate_proof")
     ctx.touch(g)
